@@ -203,15 +203,41 @@ func (w *c04World) applyPacket(budget int) *explore.Fail {
 			if fl := w.onStreamBlocked(fr); fl != nil {
 				return fl
 			}
+			w.ctrlHeld = append(w.ctrlHeld, c04Ctrl{f: fr, s: c04Idx(fr.StreamID), orig: int(fr.MaximumStreamData)})
 			w.outcome += " STREAM_DATA_BLOCKED"
 		case *wire.DataBlockedFrame:
 			if fl := w.onConnBlocked(int(fr.MaximumData)); fl != nil {
 				return fl
 			}
+			w.ctrlHeld = append(w.ctrlHeld, c04Ctrl{f: fr, s: -1, orig: int(fr.MaximumData)})
 			w.outcome += " DATA_BLOCKED"
 		case *wire.ResetStreamFrame:
 		default:
 			explore.Must(false, "unexpected control frame %T from the framer", fr)
+		}
+	}
+	return nil
+}
+
+// applyRetransmitCtrl: the packet that carried the i-th held *_BLOCKED frame is declared lost.
+// Frames without a handler go to the connection's retransmission queue as they are, and the
+// packer serialises the same object into the next packet. A retransmission that repeats the
+// limit of the lost report is not a second report; one that names another limit is a new
+// report for that limit.
+func (w *c04World) applyRetransmitCtrl(i int) *explore.Fail {
+	h := w.ctrlHeld[i]
+	w.ctrlHeld = append(append([]c04Ctrl(nil), w.ctrlHeld[:i]...), w.ctrlHeld[i+1:]...)
+	w.outcome = "retransmit blocked-frame unchanged"
+	switch fr := h.f.(type) {
+	case *wire.DataBlockedFrame:
+		if v := int(fr.MaximumData); v != h.orig {
+			w.outcome = "retransmit DATA_BLOCKED changed"
+			return w.onConnBlocked(v)
+		}
+	case *wire.StreamDataBlockedFrame:
+		if v := int(fr.MaximumStreamData); v != h.orig || c04Idx(fr.StreamID) != h.s {
+			w.outcome = "retransmit STREAM_DATA_BLOCKED changed"
+			return w.onStreamBlocked(fr)
 		}
 	}
 	return nil
